@@ -184,9 +184,14 @@ impl SignalUse {
         self.constraints
             .iter()
             .filter(|constraint| {
+                // The assigned signal may also be the input of a component.
                 let lhe = constraint.lhe.signals_read().iter();
                 let rhe = constraint.rhe.signals_read().iter();
+                let lhe_ports = constraint.lhe.components_read().iter();
+                let rhe_ports = constraint.rhe.components_read().iter();
                 lhe.chain(rhe)
+                    .chain(lhe_ports)
+                    .chain(rhe_ports)
                     .any(|signal_use| signal_use.name() == signal && signal_use.access() == access)
             })
             .collect()
